@@ -18,6 +18,7 @@ package main
 
 import (
 	"bytes"
+	"context"
 	"encoding/hex"
 	"encoding/json"
 	"fmt"
@@ -29,6 +30,7 @@ import (
 	"runtime"
 	"strings"
 	"sync"
+	"time"
 
 	"com.tuntun.rangers/node/src/storage/rlp"
 	"verif/harness/hx"
@@ -411,16 +413,53 @@ type childResp struct {
 	Failed     int            `json:"failed"`
 }
 
+// watchdog: a call that does not return within 3 s or drives the heap above 1.5 GB ends the child with a
+// marker line; the parent reports the call (and the calls before it) as the failing input.
+var childCurrent struct {
+	sync.Mutex
+	what  string
+	since time.Time
+}
+
+func childWatch() {
+	var ms runtime.MemStats
+	for {
+		time.Sleep(25 * time.Millisecond)
+		runtime.ReadMemStats(&ms)
+		childCurrent.Lock()
+		what, since := childCurrent.what, childCurrent.since
+		childCurrent.Unlock()
+		why := ""
+		if ms.HeapAlloc > 1500<<20 {
+			why = fmt.Sprintf("heap grew to %d MB", ms.HeapAlloc>>20)
+		} else if what != "" && time.Since(since) > 3*time.Second {
+			why = "no result after 3 s"
+		}
+		if why != "" {
+			b, _ := json.Marshal(map[string]string{"abort": why, "during": what})
+			os.Stdout.Write(append(b, '\n'))
+			os.Exit(7)
+		}
+	}
+}
+func childNow(what string) {
+	childCurrent.Lock()
+	childCurrent.what, childCurrent.since = what, time.Now()
+	childCurrent.Unlock()
+}
+
 func childMain(kind string) {
 	var req childReq
 	if err := json.NewDecoder(os.Stdin).Decode(&req); err != nil {
 		fmt.Fprintln(os.Stderr, "child: bad request:", err)
 		os.Exit(3)
 	}
+	go childWatch()
 	var resp childResp
 	switch kind {
 	case "order":
 		for _, i := range req.Ops {
+			childNow(pureOps[i].name)
 			resp.Obs = append(resp.Obs, pureOps[i].run(0, nil))
 			resp.Evals++
 		}
@@ -429,6 +468,7 @@ func childMain(kind string) {
 	default:
 		os.Exit(3)
 	}
+	childNow("")
 	json.NewEncoder(os.Stdout).Encode(resp)
 }
 
@@ -446,6 +486,7 @@ func childHistory(req childReq) childResp {
 			badIdx = append(badIdx, i)
 		} else {
 			goodIdx = append(goodIdx, i)
+			childNow(o.name)
 			base[i] = o.run(0, nil)
 			resp.Evals++
 		}
@@ -481,6 +522,7 @@ func childHistory(req childReq) childResp {
 				}
 				bo := pureOps[bi]
 				mode := rng.Intn(nModes)
+				childNow(bo.name)
 				obs := bo.run(mode, reuse)
 				evals++
 				failed++
@@ -492,11 +534,25 @@ func childHistory(req childReq) childResp {
 			gi := goodIdx[rng.Intn(len(goodIdx))]
 			g := pureOps[gi]
 			mode := rng.Intn(nModes)
+			childNow(g.name)
 			obs := g.run(mode, reuse)
 			evals++
 			push(fmt.Sprintf("%s [mode %d] -> %s", g.name, mode, obs))
 			if obs != base[gi] {
-				report(histMismatch{phase, append([]string{}, recent...), obs, base[gi]})
+				calls := append([]string{}, recent...)
+				// shrink: is one failing call followed by this call enough?
+			shrink:
+				for _, bi := range badIdx {
+					for try := 0; try < 3; try++ {
+						bobs := pureOps[bi].run(0, reuse)
+						if o2 := g.run(mode, reuse); o2 != base[gi] {
+							calls = []string{fmt.Sprintf("%s [mode 0] -> %s", pureOps[bi].name, bobs), fmt.Sprintf("%s [mode %d] -> %s", g.name, mode, o2)}
+							obs = o2
+							break shrink
+						}
+					}
+				}
+				report(histMismatch{phase, calls, obs, base[gi]})
 			}
 			if phase != "one-goroutine" && r%7 == 0 {
 				runtime.Gosched()
@@ -525,6 +581,13 @@ func childHistory(req childReq) childResp {
 	return resp
 }
 
+type childAbort struct {
+	Abort  string `json:"abort"`
+	During string `json:"during"`
+}
+
+func (c *childAbort) Error() string { return c.Abort + " during " + c.During }
+
 func runChild(kind string, req childReq) (childResp, error) {
 	var resp childResp
 	self, err := os.Executable()
@@ -532,14 +595,24 @@ func runChild(kind string, req childReq) (childResp, error) {
 		self = os.Args[0]
 	}
 	in, _ := json.Marshal(req)
-	cmd := exec.Command(self)
+	ctx, cancel := context.WithTimeout(context.Background(), 180*time.Second)
+	defer cancel()
+	cmd := exec.CommandContext(ctx, self)
 	cmd.Env = append(os.Environ(), "C08_CHILD="+kind)
 	cmd.Stdin = bytes.NewReader(in)
 	var stderr bytes.Buffer
 	cmd.Stderr = &stderr
 	out, err := cmd.Output()
 	if err != nil {
-		return resp, fmt.Errorf("%v: %s", err, strings.TrimSpace(stderr.String()))
+		var ab childAbort
+		if json.Unmarshal(bytes.TrimSpace(out), &ab) == nil && ab.Abort != "" {
+			return resp, &ab
+		}
+		msg := strings.TrimSpace(stderr.String())
+		if len(msg) > 600 {
+			msg = msg[:600]
+		}
+		return resp, fmt.Errorf("%v: %s", err, msg)
 	}
 	if err := json.Unmarshal(out, &resp); err != nil {
 		return resp, fmt.Errorf("child output: %v", err)
@@ -619,8 +692,39 @@ func pureTier(a hx.Args, rng *hx.Rng, res *hx.Result) (fresh []string) {
 		orders = append(orders, shuffled(good))
 	}
 	results := make([][]string, len(orders))
+	aborted := 0
 	for k, ord := range orders {
+		if aborted >= 3 && k >= nRef {
+			break // every further order would spend its time in the same non-returning call
+		}
 		resp, err := runChild("order", childReq{Ops: ord})
+		if ab, ok := err.(*childAbort); ok {
+			aborted++
+			// a call that neither returns nor fails: find where, then whether it also happens in a fresh process
+			at := 0
+			for p, i := range ord {
+				if pureOps[i].name == ab.During {
+					at = p
+				}
+			}
+			alone, err2 := runChild("order", childReq{Ops: []int{ord[at]}})
+			key, why := "C08/pure:type-cache-order", "as the first call of a fresh process it returns "
+			if err2 != nil {
+				key, why = "C08/total:"+pureOps[ord[at]].group, "alone in a fresh process: "+err2.Error()
+			} else {
+				why += alone.Obs[0]
+			}
+			calls := ord[:at+1]
+			for q := 0; q < at && err2 == nil && aborted <= 2; q++ {
+				if _, e3 := runChild("order", childReq{Ops: []int{ord[q], ord[at]}}); e3 != nil {
+					calls = []int{ord[q], ord[at]}
+					break
+				}
+			}
+			res.Violate(key, fmt.Sprintf("%q does not return (%s) after the calls listed; %s", ab.During, ab.Abort, why),
+				map[string]interface{}{"calls_in_order": opNames(calls), "call": ab.During, "abort": ab.Abort})
+			continue
+		}
 		if err != nil || len(resp.Obs) != len(ord) {
 			childFailed(fmt.Sprintf("order #%d %v", k, opNames(ord)), fmt.Errorf("%v (got %d results)", err, len(resp.Obs)))
 			continue
@@ -677,6 +781,10 @@ func pureTier(a hx.Args, rng *hx.Rng, res *hx.Result) (fresh []string) {
 	}
 	for k := 0; k < nproc; k++ {
 		resp, err := runChild("history", childReq{Seed: rng.U64(), Rounds: rounds, Goroutines: 6})
+		if ab, ok := err.(*childAbort); ok {
+			res.Violate("C08/total:nonterminating-call", fmt.Sprintf("%q does not return (%s) in the history process", ab.During, ab.Abort), ab.During)
+			continue
+		}
 		if err != nil {
 			childFailed(fmt.Sprintf("history run #%d", k), err)
 			continue
